@@ -21,7 +21,7 @@ struct U {
 }
 
 fn build_urls() -> Vec<U> {
-    let hosts = ["a.b", "b.a", "ab.a", "aa.b", "a.a.b", "a.b.a.b", "b.ab.a"];
+    let hosts = ["a.b", "b.a", "ab.a", "aa.b", "a.a.b", "a.b.a.b", "b.ab.a", "a.ba", "b.ab"];
     let mut paths: Vec<String> = vec![];
     let n = count_strings_upto(4, 3);
     for i in 0..n {
